@@ -19,7 +19,8 @@ Definition read_bits2 (out : list bool) (pos : option N) (size : N) : bigint :=
   match pos with
   | None => mk (-1) (Some size)                                         (* a bank without outp: nothing was written *)
   | Some p =>
-    if (N.of_nat (length out) <? p + size)%N then mk (-1) (Some size)   (* beyond the output: can never be identical *)
+    if (size =? 0)%N then mk 0 (Some 0%N)                               (* an empty value occupies no bit: readable anywhere *)
+    else if (N.of_nat (length out) <? p + size)%N then mk (-1) (Some size)   (* beyond the output: can never be identical *)
     else mk (bits_to_Z (firstn (N.to_nat size) (skipn (N.to_nat p) out))) (Some size)
   end.
 
